@@ -47,6 +47,7 @@ func c14InitMaps() {
 	tm, _ := hessian.ExtractTypeNameMap(all)
 	// recursive container types under short wire names, and a list type for ref bombs
 	tm["[tree"] = reflect.TypeOf(zoo.Tree{})
+	tm["[ptree"] = reflect.TypeOf(zoo.PTree{})
 	tm["j"] = reflect.TypeOf(zoo.JMap{})
 	tm["[[int"] = reflect.TypeOf([][]int32{})
 	tm["[m"] = reflect.TypeOf([]map[string]int64{})
